@@ -75,9 +75,18 @@ def main(args):
 
         if args.dry_run:
             for exp_path in to_delete:
-                print("Would delete", str(exp_path.relative_to(cwd)))
+                print("Would delete", str(_relative_to_if_possible(exp_path, cwd)))
         else:
             for exp_path in to_delete:
                 if args.verbose:
-                    print("Deleting", str(exp_path.relative_to(cwd)))
+                    print("Deleting", str(_relative_to_if_possible(exp_path, cwd)))
                 shutil.rmtree(exp_path, ignore_errors=True)
+
+
+def _relative_to_if_possible(path: pathlib.Path, base: pathlib.Path) -> pathlib.Path:
+    # `path` is not under `base` when `cond gc` is invoked from a subdirectory
+    # of the project (other than the output directory).
+    try:
+        return path.relative_to(base)
+    except ValueError:
+        return path
